@@ -51,6 +51,7 @@ type Engine struct {
 	loopCache   map[*ssa.Function]*loopInfo
 	hookArgs  []Val
 	hookRes   *Val
+	curDeferInstr ssa.Instruction // the defer statement whose call is being executed by RunDefers
 	gconsts   map[*ssa.Global]*ssa.Const
 	guards    map[string]*guardInfo // "pkgpath.Type.field" -> guard
 	typedOnce map[string]bool
@@ -430,7 +431,9 @@ func (e *Engine) explore(st *State, stopDepth int, stop *ssa.BasicBlock, retDept
 					pending = append(pending, e.explore(st2, stopDepth, stop, retDepth)...)
 					st.assumeBranch(d.guard)
 				}
+				e.curDeferInstr = d.instr
 				e.doCall(st, d.call, d.fn, d.args, nil, in.Pos(), true)
+				e.curDeferInstr = nil
 			}
 		default:
 			e.execInstr(st, instr)
@@ -502,6 +505,11 @@ func (e *Engine) doReturn(st *State, res []Val, pos token.Pos) {
 			e.runHooks(st, caller, ci, keyOf(fr.fn), "after")
 			e.hookRes = nil
 		}
+	} else if fr.deferSite != nil && len(st.frames) == 1 && !st.dead {
+		// an inlined DEFERRED call has run: its after-hooks fire now (in the order the deferred calls execute)
+		e.hookArgs = fr.params
+		e.hookRes = nil
+		e.runHooks(st, caller, fr.deferSite, keyOf(fr.fn), "after")
 	}
 }
 
@@ -747,7 +755,7 @@ func (e *Engine) execInstr(st *State, instr ssa.Instruction) {
 				return
 			}
 		}
-		fr.defers = append(fr.defers, deferRec{call: &in.Call, fn: fnv, args: args, pos: posStr(e, in.Pos())})
+		fr.defers = append(fr.defers, deferRec{call: &in.Call, fn: fnv, args: args, pos: posStr(e, in.Pos()), instr: in})
 	case *ssa.Go:
 		e.abstracted["go statement (callee effects not sequenced)"] = true
 		fnv := Val{}
